@@ -72,7 +72,7 @@ def main():
 
         out = generic(imports_h, prop, tier, seed, replay)
         rule = RULES["imports"]
-    elif prop in ("C02", "C03", "C10"):
+    elif prop in ("C02", "C03"):
         import rich_h
 
         out = generic(rich_h, prop, tier, seed, replay)
@@ -82,7 +82,7 @@ def main():
 
         out = generic(edit_h, prop, tier, seed, replay)
         rule = RULES["edit"]
-    elif prop == "C11":
+    elif prop in ("C11", "C10"):
         import edit_h
         import rich_h
 
